@@ -1,0 +1,61 @@
+//go:build verif
+
+package confirm
+
+// Contracts for /verif (contract-based deductive verification of the real
+// code). Comment-only: no code; visible only with the build tag "verif".
+//
+//@ func (*Confirm).Get
+//@   property C05 C18
+//@   -- an account is only confirmed on the strength of a token that decodes to exactly
+//@   -- 64 bytes whose first half selects the account and whose second half hashes to
+//@   -- the stored verifier
+//@   ensures[C05] accept_guard: each Store.Save(?s) -> _ =>
+//@       before Store.LoadByConfirmSelector(?sel) -> (?u, ?le) :: le == nil && u == s &&
+//@       before Body.Read(PageConfirm) -> (?vals, ?re) :: re == nil &&
+//@          b64url_ok(val(vals, "GetToken")) && len(b64url_dec(val(vals, "GetToken"))) == 64 &&
+//@          sel == b64std(sha512(substr(b64url_dec(val(vals, "GetToken")), 0, 32))) &&
+//@          b64std_ok(ConfirmVerifier(u)) &&
+//@          sha512(substr(b64url_dec(val(vals, "GetToken")), 32, 32)) == b64std_dec(ConfirmVerifier(u))
+//@   ensures[C05] spent_on_use: each Store.Save(?s) -> _ => ConfirmSelector(s) == "" && ConfirmVerifier(s) == "" && Confirmed(s)
+//@   ensures[C05] only_own_record: each Store.Save(?s) -> _ => PID(s) == old(PID(s)) && Password(s) == old(Password(s))
+//@   ensures[C05] never_touches_session: !emits Sess.Put(_, _) && !emits Sess.Del(_) && !emits Cook.Put(_, _)
+//@   ensures[C18] no_panic: !panics
+//@   ensures[C18] save_error_outcome: each Store.Save(_) -> ?e => e != nil ==> (result == e && !emits Redirect(_))
+//@   ensures[C18] load_error_outcome: each Store.LoadByConfirmSelector(_) -> (_, ?e) => (e != nil && e != ErrUserNotFound) ==> (result == e && !emits Store.Save(_))
+//@
+//@ func (*Confirm).PreventAuth
+//@   property C03 C18
+//@   -- the login may only continue (false, nil) for a confirmed account
+//@   ensures[C03] veto_unconfirmed: (result.0 == false && result.1 == nil) ==>
+//@       ite(ctxuser(r) != nil, Confirmed(ctxuser(r)), emits Store.Load(_) -> (?u, ?e) :: e == nil && Confirmed(u))
+//@   ensures[C03] veto_redirects: result.0 ==> emits Redirect(?ro) :: ro.Code == 307 && ro.RedirectPath == c.Config.Paths.ConfirmNotOK
+//@   ensures[C03] never_touches_session: !emits Sess.Put(_, _)
+//@   ensures[C18] no_panic: !panics
+//@
+//@ func (*Confirm).Init
+//@   property C03 C19
+//@   ensures[C03] registered: result == nil ==> emits Events.Register("Before", EventAuth, ?h) :: fname(h) == "(*Confirm).PreventAuth"
+//@   ensures[C03] registered_oauth2: result == nil ==> emits Events.Register("Before", EventOAuth2, ?h) :: fname(h) == "(*Confirm).PreventAuth"
+//@   ensures[C19] registered_after_register: result == nil ==> emits Events.Register("After", EventRegister, ?h) :: fname(h) == "(*Confirm).StartConfirmationWeb"
+//@
+//@ func Middleware#1#1
+//@   property C03 C18
+//@   ensures[C03] mw_blocks: each Next.ServeHTTP(_, _, _, ?cu) => cu != nil && Confirmed(cu)
+//@   ensures[C03] mw_redirects: (!panics && !emits Next.ServeHTTP(_, _, _)) ==> emits Redirect(?ro) :: ro.Code == 307
+//@   ensures[C18] no_panic: !panics
+//@
+//@ func (*Confirm).StartConfirmation
+//@   property C05 C19
+//@   -- (re)starting confirmation stores fresh selector/verifier and marks the account unconfirmed
+//@   ensures[C05,C19] fresh_pair: each Store.Save(?s) -> _ => !Confirmed(s) &&
+//@       (emits Rand.Read(?raw) -> ?re :: re == nil && len(raw) == 64 &&
+//@           ConfirmSelector(s) == b64std(sha512(substr(raw, 0, 32))) &&
+//@           ConfirmVerifier(s) == b64std(sha512(substr(raw, 32, 32))))
+//@   ensures[C05] mail_after_save: each Mail.Send(_) => before Store.Save(_) -> ?e :: e == nil
+//@
+//@ func (*Confirm).StartConfirmationWeb
+//@   property C19
+//@   -- the post-register hook takes over the response, so registration does not log the user in
+//@   ensures intercepts: result.1 == nil ==> (result.0 && emits Redirect(_) && emits Store.Save(?s) -> ?e :: e == nil && !Confirmed(s))
+//@   ensures never_touches_session: !emits Sess.Put(_, _)
